@@ -16,6 +16,14 @@ CHECKS = {
    text="TrustRegion.tla with Bounded=TRUE (same convergence-first/ratio/accept skeleton, one trial per outer iteration) checked exhaustively by TLC for Feasible, Descent, ReturnsLast, HonestFlag; BoxProjection.tla is an exact lattice model of the box projection (closest point, idempotent, in box, infinite and degenerate bounds) and of the project_onto_tr contract. TLC's ratio-class sequences are replayed through the value-oracle proxy into the real bound_constrained_trust_region_minimize on random boxes (finite, one-sided, degenerate; starts on faces and vertices); every lattice instance is replayed, scaled over 13 decades, into the real project/project_onto_tr with TLC as exact oracle; genuine solves (monotone and non-monotone SPG, iteration caps, radii) incl. convex quadratics compared with active-set enumeration; all traces judged by TrustRegionTrace.tla / BoxProjectionTrace.tla.",
    note="Trusted: dense sksparse shim; alpha in checks/trsolve.py and checks/c05.py (box membership exact; ball membership of project_onto_tr within 1e-9 relative = brentq xtol; optimality measure recomputed as ||P(x-g)-x||); runs where find_generalized_cauchy_point raises RuntimeError are outside the contract and dropped (counted in evidence). Known finding F2 reported as KNOWN-FINDING.",
    tech="TLA+ specs (TrustRegion.tla Bounded, BoxProjection.tla) + TLC exhaustive; scripted-oracle and lattice replay into the real code; trace validation in TLC"),
+ "C18": dict(cat="model_checking", ref="DESIGN.md §3 C18",
+   text="TLC exhaustively model-checks SmoothFn.tla, an exact-integer model of min_base/min/max/abs, zmax, the friction potential and smooth_linear with the code's own branch tests: one-sidedness, quarter-width bound, equality outside the band, symmetry, friction non-negativity/convexity/Coulomb bound/r/2 offset, and C1 matching of value and derivative on every switch surface hold at every lattice point (19.5k quick, 143k thorough). The same run is the exact oracle: every lattice point is scaled over ten decades (plus an offset family with arguments up to 1e10 widths), perturbed by +-1 ulp per argument and evaluated on the real functions and jax.grad (vmapped, single jitted, eager); the comparison codes are judged clause by clause by SmoothFnTrace.tla.",
+   note="Trusted: alpha in checks/c18.py (value allowance 16 ulp of the largest argument + 1e-9 width; continuity: spread over the ulp-neighbourhood <= 2 allowances, gradient spread <= 1e-7 scale); claims hold on a finite lattice x decades, not for all reals; friction convexity proved for the radial profile, 2-D by three-point tests on the real code; smooth_linear limited to l <= 1/2. Defect F14 (cancellation in min_base) was found by this check and fixed.",
+   tech="TLA+ exact-integer lattice spec (SmoothFn.tla) + TLC exhaustive as oracle; scaled/ulp-perturbed replay into the real functions; trace validation in TLC"),
+ "C19": dict(cat="model_checking", ref="DESIGN.md §3 C19",
+   text="LoadStep.tla models one load step of the four drivers (refresh, warm-start jvp with the OLD parameters installed, install, refresh, solve; the bound-constrained front end re-installs) with an exact rational 1-D predictor model; TLC checks AfterStep (objective carries the new parameters, flag refers to them), PredictorLands and the operation order over all histories. All two-step histories (driver x warm x refresh x parameter version) emitted by TLC are replayed (seeded sample in quick) into the real nonlinear_equation_solve, TrustRegionSPG.solve, augmented_lagrange_solve and bound_constrained_solve through recording proxies; the order of jvp/assignment/refresh/first gradient, identity of the installed parameters, the increment (against independent dense Jacobians) and the flag under the new parameters are judged by LoadStepTrace.tla; warm_start_increment is also called directly for slots 0 and 2 and ScaledObjective is compared with Objective.",
+   note="Trusted: dense sksparse shim; alpha in checks/c19.py (||H dx - b_ref|| <= 1e-4||b_ref||; quadratic landing allows the old point's own residual; scaled vs unscaled 1e-6 relative). AL drivers exercised with inactive constraints (protocol only; C04 covers constraints).",
+   tech="TLA+ protocol spec (LoadStep.tla) + TLC exhaustive; history replay into the four real drivers via recording proxies; trace validation in TLC"),
  "C20": dict(cat="model_checking", ref="DESIGN.md §3 C20",
    text="TLC exhaustively checks WellFormed/Idempotent/FileIsFunctionOfState on VTKWriter.tla (all op sequences to depth 5-6, three mesh shapes); every abstract writer state TLC reaches to depth 3 (quick) / 4 (thorough) plus seeded samples of further transitions and simulated deep behaviours is executed on the real VTKWriter for element orders 1-4, each file parsed by an independent reader and the abstract file records validated clause by clause by VTKWriterTrace.tla. Right level: the property is about call histories of a small stateful object, fully discrete.",
    note="Trusted: the independent VTK reader and alpha in checks/c20.py; meshes are the structured 2x2 patch at orders 1-4 (file structure depends on the mesh only through nOut/nEl/npe); float round-trip judged by exact equality of parsed text.",
